@@ -42,6 +42,19 @@ func c16(c *Ctx) {
 	amw := c.amwLike()
 	isAMW := func(fn *types.Func, _ *ast.CallExpr) bool { return amw[fn] }
 
+	// the function that builds the Config proposal: applyConfig, or — when that was inlined — its former caller
+	var proposer *load.FuncInfo
+	for _, fi := range c.P.FuncsIn("api") {
+		if fi.Body() == nil {
+			continue
+		}
+		for _, cl := range compositeLitsOf(fi.Info(), fi.Body(), pathRobust, "Message") {
+			if t := litField(cl, "Type"); t != nil && refersTo(fi.Info(), t, pathRobust, "Config") {
+				proposer = fi
+			}
+		}
+	}
+	inlined := proposer != nil && proposer.Name() == "api.(*HTTP).handlePostConfig"
 	// V1
 	if fi := c.MustFunc("api.(*HTTP).handlePostConfig"); fi != nil {
 		r.Functions++
@@ -52,6 +65,13 @@ func c16(c *Ctx) {
 			return fn.Pkg() != nil && fn.Pkg().Path() == "github.com/BurntSushi/toml" && strings.HasPrefix(fn.Name(), "Decode")
 		}
 		calls := callsIn(fi, isApplyCfg)
+		var inlinedBody ast.Expr
+		if inlined {
+			calls = callsIn(fi, isAMW)
+			for _, cl := range compositeLitsOf(info, fi.Body(), pathRobust, "Message") {
+				inlinedBody = litField(cl, "Data")
+			}
+		}
 		r.Check(len(calls) > 0, "C16.V1", fi.Name(), "proposes through applyConfig", c.P.Pos(fi.Node().Pos()), "found", "handlePostConfig does not call applyConfig")
 		deps := flowx.Compute(info, fi.Node())
 		for _, call := range calls {
@@ -65,7 +85,14 @@ func c16(c *Ctx) {
 			for _, dc := range callsIn(fi, isDecode) {
 				decodeCall = dc
 			}
-			if decodeCall != nil && len(call.Args) == 2 {
+			bodyArg := ast.Expr(nil)
+			if len(call.Args) == 2 {
+				bodyArg = call.Args[1]
+			}
+			if inlined {
+				bodyArg = inlinedBody
+			}
+			if decodeCall != nil && bodyArg != nil {
 				// find &buf inside the decode call's reader argument
 				var bufObj types.Object
 				ast.Inspect(decodeCall.Args[0], func(n ast.Node) bool {
@@ -84,7 +111,7 @@ func c16(c *Ctx) {
 						tee = true
 					}
 				}
-				if bufObj != nil && tee && deps.Of(call.Args[1])[bufObj] {
+				if bufObj != nil && tee && deps.Of(bodyArg)[bufObj] {
 					okBody = true
 				}
 			}
@@ -94,7 +121,14 @@ func c16(c *Ctx) {
 	}
 
 	// V2
-	if fi := c.MustFunc("api.(*HTTP).applyConfig"); fi != nil {
+	v2fn := c.P.Func("api.(*HTTP).applyConfig")
+	if v2fn == nil && inlined {
+		v2fn = proposer
+	}
+	if v2fn == nil {
+		c.MustFunc("api.(*HTTP).applyConfig")
+	}
+	if fi := v2fn; fi != nil {
 		r.Functions++
 		info := fi.Info()
 		g := c.Graph(fi)
@@ -124,6 +158,15 @@ func c16(c *Ctx) {
 			return e
 		}
 		isParam := func(e ast.Expr, o types.Object) bool {
+			if inlined {
+				// no parameters: the revision is the local parsed from the request header, the body the tee'd buffer's text
+				if call, ok := ast.Unparen(resolve(e)).(*ast.CallExpr); ok {
+					if fn := astx.Callee(info, call); fn != nil && (isFunc(fn, "strconv", "ParseUint") || fn.Name() == "String") {
+						return true
+					}
+				}
+				return false
+			}
 			id, ok := ast.Unparen(resolve(e)).(*ast.Ident)
 			return ok && o != nil && astx.Obj(info, id) == o
 		}
@@ -391,6 +434,8 @@ func c16(c *Ctx) {
 						if f == cfgField {
 							if fi.Name() == "api.(*HTTP).handleGetConfig" {
 								r.Except("C16.V4", fi.Name(), "address of IRCServer.Config", c.P.Pos(x.Pos()), "passed to the TOML encoder for reading, under ConfigMu.RLock")
+							} else if c.readOnlyAlias(fi, x) {
+								r.Ok("C16.V4", fi.Name(), "address of IRCServer.Config kept in a local that is only read", c.P.Pos(x.Pos()), "every use of the local selects a field in read position")
 							} else {
 								r.Fail("C16.V4", fi.Name(), "address of IRCServer.Config", c.P.Pos(x.Pos()), "a pointer into the configuration escapes: writes through it bypass the replicated update path")
 							}
@@ -551,11 +596,45 @@ func c16(c *Ctx) {
 		ac := c.P.Func("api.(*HTTP).applyConfig")
 		n := 0
 		for _, call := range astx.Calls(hpc.Body(), true) {
-			if ac == nil || astx.Callee(hi, call) != ac.Obj || len(call.Args) < 1 {
+			var src ast.Expr
+			if ac != nil && astx.Callee(hi, call) == ac.Obj && len(call.Args) >= 1 {
+				src = call.Args[0]
+			} else if ac == nil && inlined {
+				// the revision side of the gate in front of the commit call
+				if fn := astx.Callee(hi, call); fn == nil || !amw[fn] {
+					continue
+				}
+				for _, f := range c.Graph(hpc).FactsAt(c.Graph(hpc).VertexOf(call)) {
+					if be, ok := ast.Unparen(f.Expr).(*ast.BinaryExpr); ok && f.Tag == nil {
+						for _, side := range []ast.Expr{be.X, be.Y} {
+							if id, ok := ast.Unparen(side).(*ast.Ident); ok {
+								if b, ok := hi.TypeOf(id).Underlying().(*types.Basic); ok && b.Kind() == types.Uint64 {
+									// the side that is not the revision in force
+									isCur := false
+									e := ast.Expr(id)
+									for k := 0; k < 3; k++ {
+										d := uniqueDef(hi, hpc.Node(), e)
+										if d == nil {
+											break
+										}
+										e = d
+									}
+									if cc, ok := ast.Unparen(e).(*ast.CallExpr); ok && cr != nil && astx.Callee(hi, cc) == cr.Obj {
+										isCur = true
+									}
+									if !isCur {
+										src = e
+									}
+								}
+							}
+						}
+					}
+				}
+			}
+			if src == nil {
 				continue
 			}
 			n++
-			src := call.Args[0]
 			if d := uniqueDef(hi, hpc.Node(), src); d != nil {
 				src = d
 			}
